@@ -140,8 +140,7 @@ static inline Json make_plan(Harness &h, uint64_t seed, int64_t index, const Jso
 
 static inline uint64_t plan_hash(const Json &plan) {
   Fnv f; std::string s;
-  if (auto k = plan.find("knobs")) k->dump(s);
-  if (auto o = plan.find("ops")) o->dump(s);
+  for (auto &p : plan.o) if (p.first != "harness" && p.first != "verif_seed" && p.first != "run_index") { s += p.first; p.second.dump(s); }
   f.bytes(s.data(), s.size()); return f.h;
 }
 
